@@ -284,7 +284,7 @@ func TestC13ExitRace(t *testing.T) {
 func genMass(t *rapid.T) MassCase {
 	c := MassCase{
 		Old:        rapid.OneOf(rapid.IntRange(1, 64), rapid.IntRange(65, 1500), rapid.IntRange(4000, vstat.Pick(9000, 20000))).Draw(t, "old"),
-		OldMode:    rapid.SampledFrom([]string{"cancel", "fire", "mixed"}).Draw(t, "oldMode"),
+		OldMode:    rapid.SampledFrom([]string{"cancel", "fire", "mixed", "layered", "layered"}).Draw(t, "oldMode"),
 		Order:      rapid.SampledFrom([]string{"fwd", "rev", "shuffle"}).Draw(t, "order"),
 		New:        rapid.OneOf(rapid.IntRange(1, 64), rapid.IntRange(65, 3000)).Draw(t, "new"),
 		Again:      rapid.IntRange(0, 3).Draw(t, "again"),
@@ -294,6 +294,9 @@ func genMass(t *rapid.T) MassCase {
 	}
 	if c.OldMode != "cancel" {
 		c.Old = min(c.Old, 3000) // these really fire
+	}
+	if c.OldMode == "layered" {
+		c.Old = 3 + c.Old%125 // a heap of 2..7 levels
 	}
 	c.Between = rapid.IntRange(0, c.New).Draw(t, "between")
 	return c
@@ -318,6 +321,9 @@ var massSystematic = []MassCase{
 	{Old: 64, OldMode: "fire", Order: "fwd", New: 64, Again: 1, IdleMs: 20, MaxWorkers: 10},
 	{Old: 200, OldMode: "fire", Order: "rev", New: 300, Again: 2, IdleMs: 50, MaxWorkers: 1},
 	{Old: 500, OldMode: "mixed", Order: "shuffle", Seed: 3, New: 500, Between: 100, Again: 1, IdleMs: 20, MaxWorkers: 10},
+	{Old: 15, OldMode: "layered", Order: "rev", Seed: 1, New: 4, Again: 1, IdleMs: 20, MaxWorkers: 10},
+	{Old: 31, OldMode: "layered", Order: "shuffle", Seed: 5, New: 4, Again: 0, IdleMs: 20, MaxWorkers: 2},
+	{Old: 63, OldMode: "layered", Order: "fwd", Seed: 2, New: 8, Again: 1, IdleMs: 5, MaxWorkers: 10},
 }
 
 func TestC12Generations(t *testing.T) {
